@@ -50,6 +50,7 @@ func (c14) Rule() string {
 
 func (c14) Generate(r *rand.Rand, tier string) (sim.Config, any) {
 	cfg := RandomSimConfig(r)
+	cfg.StmtYield = pick(r, []float64{0, 0, 0.02, 0.1}) // statement-level preemption in the handler / cluster packages
 	cfg.IdleLimitSec = 7200
 	nOld := 1 + r.IntN(3)
 	old := r.Perm(4)[:nOld]
@@ -253,10 +254,10 @@ func (c14) Execute(env *Env) {
 				env.Infra("read records: %v", err)
 				return
 			}
-			for k, v := range recs {
+			for k, v := range detRange(recs) {
 				orig.records[k] = v
 			}
-			for rel, path := range ShardFiles(n.dir) {
+			for rel, path := range detRange(ShardFiles(n.dir)) {
 				b, err := os.ReadFile(path)
 				if err != nil {
 					env.Infra("read shard: %v", err)
@@ -267,7 +268,7 @@ func (c14) Execute(env *Env) {
 		}
 		// chunk size knob relative to a real shard file
 		fileSize := 32768
-		for _, b := range orig.shards {
+		for _, b := range detRange(orig.shards) {
 			fileSize = len(b)
 			break
 		}
@@ -443,7 +444,7 @@ func (c14) Execute(env *Env) {
 			return
 		}
 		// ---- finality
-		for key, val := range orig.records {
+		for key, val := range detRange(orig.records) {
 			for _, a := range sortedKeys(w.Nodes) {
 				recs, err := NodeRecords(w.Nodes[a].dir)
 				if err != nil {
@@ -465,7 +466,7 @@ func (c14) Execute(env *Env) {
 			}
 		}
 		var pl []string
-		for rel, val := range orig.shards {
+		for rel, val := range detRange(orig.shards) {
 			for _, a := range sortedKeys(w.Nodes) {
 				path := filepath.Join(w.Nodes[a].dir, cluster.USERCOLSDIR, rel, "sharddb.bbolt")
 				have, err := os.ReadFile(path)
@@ -485,7 +486,7 @@ func (c14) Execute(env *Env) {
 		placement = strings.Join(pl, ";")
 		// every stored point readable through every node of the new list
 		for _, a := range newAddrs {
-			for key, docs := range orig.docs {
+			for key, docs := range detRange(orig.docs) {
 				parts := strings.Split(key, "/")
 				var c models.Collection
 				var err error
@@ -519,25 +520,25 @@ func c14NothingLost(env *Env, w *ClusterWorld, orig c14Original, where string) b
 			env.Violate("conservation", "node-db-unreadable", "%s: node database of %s unreadable: %v", where, a, err)
 			return false
 		}
-		for k, v := range r {
+		for k, v := range detRange(r) {
 			if bytes.Equal(v, orig.records[k]) {
 				recs[k] = true
 			}
 		}
-		for rel, path := range ShardFiles(w.Nodes[a].dir) {
+		for rel, path := range detRange(ShardFiles(w.Nodes[a].dir)) {
 			b, err := os.ReadFile(path)
 			if err == nil && bytes.Equal(b, orig.shards[rel]) {
 				shards[rel] = true
 			}
 		}
 	}
-	for k := range orig.records {
+	for k := range detRange(orig.records) {
 		if !recs[k] {
 			env.Violate("conservation", "record-lost", "%s: collection record %s is on no node any more", where, k)
 			return false
 		}
 	}
-	for rel := range orig.shards {
+	for rel := range detRange(orig.shards) {
 		if !shards[rel] {
 			env.Violate("conservation", "shard-lost", "%s: no node holds a complete copy of shard %s any more", where, rel)
 			return false
